@@ -177,6 +177,39 @@ impl<V: Variant> GenModel<V> {
                         fault = Some(format!("updating a clone changed its original (or a sibling clone) at n={}", s.n));
                     }
                 }
+                // Clone::clone_from into generators that have already been used (shorter, longer, fresh)
+                if fault.is_none() {
+                    let expect: Vec<_> = Opts::all().map(|o| catch(|| real_finalize::<V>(sgen, &o))).collect();
+                    let expect_len = sgen.processed_len();
+                    for dirty_len in [0usize, 3, 5, 41, 200] {
+                        let mut dst = V::new_gen();
+                        let junk: Vec<u8> = (0..dirty_len).map(|i| (i * 89 + 7) as u8).collect();
+                        dst.update(&junk);
+                        let r = catch(|| dst.clone_from(sgen));
+                        let got: Vec<_> = Opts::all().map(|o| catch(|| real_finalize::<V>(&dst, &o))).collect();
+                        // and it keeps behaving like the source: feed both the same 6 further bytes
+                        let mut a = sgen.clone();
+                        let more = self.stream.bytes(s.n, 6);
+                        let mut same_future = true;
+                        if catch(|| {
+                            a.update(&more);
+                            dst.update(&more);
+                        })
+                        .is_err()
+                        {
+                            same_future = false;
+                        }
+                        for o in Opts::all() {
+                            if catch(|| real_finalize::<V>(&a, &o)) != catch(|| real_finalize::<V>(&dst, &o)) {
+                                same_future = false;
+                            }
+                        }
+                        if r.is_err() || got != expect || dst.processed_len() != a.processed_len() || !same_future || expect_len != sgen.processed_len() {
+                            fault = Some(format!("clone_from into a generator that had seen {dirty_len} bytes does not behave like the source at n={}", s.n));
+                            break;
+                        }
+                    }
+                }
                 Some(St { gen: GenBox::new(clone), reference: s.reference.clone(), key: ckey, n: s.n, fault })
             }
         }
